@@ -222,7 +222,7 @@ func selfTestCtl(r *ev.Run, walks [][]brk.CtlStep) bool {
 					r.Inconclusive("self-test: a falsified expected outcome was not rejected by the replay (%v)", err)
 					return false
 				}
-				r.Set("selftest", "falsified expected admission outcome rejected: "+res.Divs[0].Desc)
+				r.Append("selftest", "falsified expected admission outcome rejected: "+res.Divs[0].Desc)
 				return true
 			}
 		}
@@ -256,16 +256,16 @@ func ctlCampaign(r *ev.Run, prop string) {
 			walks = append(walks, s)
 		}
 	}
-	r.Set("states", states)
-	r.Set("transitions", trans)
-	r.Set("tlc_states_generated", gen)
+	r.Add("states", states)
+	r.Add("transitions", trans)
+	r.Add("tlc_states_generated", gen)
 	r.Set("tlc_configs", cfgs)
-	r.Set("tlc_invariants_checked", "TypeOK OneShell Consistent IdleIsInitial ExactlyOneGone ReadyAtMostOncePerGen ShutdownWaits SameRequest AtMostOneIO NoMixIOUni; action properties RefusedWhenRequired ReArm ReadyOnlyWhenFull FullImpliesReady NoAdmissionAfterShutdown")
+	r.Append("tlc_invariants_checked", "TypeOK OneShell Consistent IdleIsInitial ExactlyOneGone ReadyAtMostOncePerGen ShutdownWaits SameRequest AtMostOneIO NoMixIOUni; action properties RefusedWhenRequired ReArm ReadyOnlyWhenFull FullImpliesReady NoAdmissionAfterShutdown")
 	if !selfTestCtl(r, walks) {
 		return
 	}
 	found, nsteps, variants := replayAll(r, walks, r.Seed)
-	r.Set("edge_cover_walks", len(walks))
+	r.Add("edge_cover_walks", len(walks))
 	nw := len(walks)
 	// larger configuration by simulation
 	if r.Tier == "thorough" {
@@ -295,13 +295,13 @@ func ctlCampaign(r *ev.Run, prop string) {
 			nontrivial++
 		}
 	}
-	r.Set("traces_validated_against_impl", nw)
-	r.Set("evaluations", nw)
-	r.Set("distinct_nontrivial", nontrivial)
-	r.Set("replayed_steps", nsteps)
+	r.Add("traces_validated_against_impl", nw)
+	r.Add("evaluations", nw)
+	r.Add("distinct_nontrivial", nontrivial)
+	r.Add("replayed_steps", nsteps)
 	r.Set("key_variants", variants)
 	r.Set("exhaustive", true)
-	r.Set("rule", fmt.Sprintf("every edge of the TLC state graphs of %v is replayed on a real Broker through covering walks from Init (gated schedule); a walk is non-trivial when it attaches at least one stream; distinct = distinct action sequences", cfgs))
+	r.Rule(fmt.Sprintf("every edge of the TLC state graphs of %v is replayed on a real Broker through covering walks from Init (gated schedule); a walk is non-trivial when it attaches at least one stream; distinct = distinct action sequences", cfgs))
 	for i := 0; i < len(walks) && i < 3; i++ {
 		r.Sample(labels(walks[rng.Intn(len(walks))]))
 	}
